@@ -1,26 +1,14 @@
 package main
 
 import (
-	"bytes"
 	"fmt"
 	"os"
-	"runtime/pprof"
-	"strconv"
+	"regexp"
 
 	"github.com/coregx/coregex"
-	"github.com/coregx/coregex/meta"
 )
 
 func main() {
-	n, _ := strconv.Atoi(os.Args[2])
-	re := coregex.MustCompile(os.Args[1])
-	e, _ := meta.Compile(os.Args[1])
-	fmt.Println(e.Strategy())
-	h := bytes.Repeat([]byte(os.Args[3]), n/len(os.Args[3]))
-	f, _ := os.Create("/verif/work/cpu.prof")
-	pprof.StartCPUProfile(f)
-	for i := 0; i < 3; i++ {
-		re.FindIndex(h)
-	}
-	pprof.StopCPUProfile()
+	p, h := os.Args[1], os.Args[2]
+	fmt.Println(coregex.MustCompile(p).FindStringIndex(h), regexp.MustCompile(p).FindStringIndex(h))
 }
